@@ -92,3 +92,80 @@ Proof.
              (knorm (O:=R_ops J) a mlim * Cconst (O:=R_ops J) a mlim i)).
     apply mom1_is_integral; assumption.
 Qed.
+
+(* ------------------------------------------------------------------ *)
+(* integral() over the WHOLE domain: the loop visits every piece with its own limits, and the
+   zeroth moment it returns is exactly one -- integral() agrees with the normalisation of eval() *)
+
+Lemma SS_nth_le_gen l : StronglySorted Rlt l ->
+  forall i j, (i <= j)%nat -> (j < length l)%nat -> nth i l 0 <= nth j l 0.
+Proof.
+  intros Hs i j Hij Hj. induction j as [|j IH].
+  - assert (i = 0)%nat by lia. subst. lra.
+  - destruct (Nat.eq_dec i (S j)) as [->|Hne]; [lra|].
+    assert (nth i l 0 <= nth j l 0) by (apply IH; lia).
+    pose proof (SS_nth_lt l Hs j Hj). lra.
+Qed.
+
+Lemma last_nth (l : list R) : last l 0 = nth (length l - 1) l 0.
+Proof.
+  induction l as [|x l IH]; [reflexivity|].
+  destruct l as [|y l]; [reflexivity|].
+  change (last (x :: y :: l) 0) with (last (y :: l) 0). rewrite IH.
+  cbn [length]. replace (S (S (length l)) - 1)%nat with (S (length l - 0))%nat by lia.
+  cbn [nth]. replace (S (length l) - 1)%nat with (length l - 0)%nat by lia. reflexivity.
+Qed.
+
+Lemma clip_full J a mlim i : valid_kroupa a mlim -> (i < length a)%nat ->
+  clip_lo J mlim (nth 0 mlim 0) i = nth i mlim 0 /\
+  clip_hi J mlim (last mlim 0) i = nth (S i) mlim 0.
+Proof.
+  intros Hv Hi. pose proof Hv as (Hlen & _ & Hs & _).
+  unfold clip_lo, clip_hi, nmax, nmin.
+  change (@nltb R (R_ops J)) with Rltb. split.
+  - replace (Rltb (nth i mlim 0) (nth 0 mlim 0)) with false; [reflexivity|].
+    symmetry. apply Rltb_false. apply SS_nth_le_gen; [exact Hs|lia|lia].
+  - replace (Rltb (last mlim 0) (nth (S i) mlim 0)) with false; [reflexivity|].
+    symmetry. apply Rltb_false. rewrite last_nth. apply SS_nth_le_gen; [exact Hs|lia|lia].
+Qed.
+
+Lemma kint_full_range : forall J a mlim, valid_kroupa a mlim ->
+  fst (kint_loop J a mlim (nth 0 mlim 0) (last mlim 0) (seq 0 (length a)) (0, 0)) = 1.
+Proof.
+  intros J a mlim Hv. rewrite kint_loop_spec. cbn [fst].
+  destruct (kroupa_normalised J a mlim Hv) as [_ Hn]. rewrite <- Hn.
+  f_equal. apply map_ext_in. intros i Hin. apply in_seq in Hin.
+  destruct (clip_full J a mlim i Hv) as [-> ->]; [lia|reflexivity].
+Qed.
+
+(* ... and the model's kintegral, asked for the whole domain, takes exactly that loop *)
+Lemma last_ge1_above J x : 0 < x -> forall r i acc, List.Forall (fun m => x < m) r ->
+  last_ge1 (O:=R_ops J) r x i acc = acc.
+Proof.
+  intros Hx r. induction r as [|m r IH]; intros i acc Hf; [reflexivity|].
+  inversion Hf as [|m' r' Hm Hr]; subst. cbn [last_ge1].
+  change (@nleb R (R_ops J)) with Rleb. change (@none R (R_ops J)) with 1. change (@ndiv R (R_ops J)) with (Rdiv_j J).
+  rewrite Rdiv_j_ok by lra.
+  replace (Rleb 1 (x / m)) with false; [apply IH; exact Hr|].
+  symmetry. apply Rleb_false.
+  apply (Rmult_lt_reg_r m); [lra|]. replace (x / m * m) with x by (field; lra). lra.
+Qed.
+
+Lemma kintegral_full_range : forall J a mlim, valid_kroupa a mlim ->
+  kintegral (O:=R_ops J) a mlim (nth 0 mlim 0) (last mlim 0) =
+  Ok (kint_loop J a mlim (nth 0 mlim 0) (last mlim 0) (seq 0 (length a)) (0, 0)).
+Proof.
+  intros J a mlim Hv. pose proof Hv as (Hlen & H2 & Hs & Hp).
+  replace (seq 0 (length a)) with (seq 0 (length a - 0)) by (f_equal; lia).
+  apply kintegral_multi_is_loop; try lra; try lia.
+  - destruct mlim as [|x0 r]; [simpl in Hlen; lia|].
+    inversion Hs as [|x0' r' Hsr Hfr]; subst. inversion Hp as [|x0' r' Hx0 Hpr]; subst.
+    cbn [nth last_ge1].
+    change (@nleb R (R_ops J)) with Rleb. change (@none R (R_ops J)) with 1. change (@ndiv R (R_ops J)) with (Rdiv_j J).
+    rewrite Rdiv_j_ok by lra.
+    replace (Rleb 1 (x0 / x0)) with true.
+    2:{ symmetry. apply Rleb_true. replace (x0 / x0) with 1 by (field; lra). lra. }
+    apply last_ge1_above; assumption.
+  - replace (Reqb (last mlim 0) (last mlim 0)) with true by (symmetry; apply Reqb_true; reflexivity).
+    f_equal. lia.
+Qed.
